@@ -212,6 +212,7 @@ def touch(g, kind):
                 g.degree(t=t), g.nodes(t=t), g.interactions(t=t), g.size(t=t), g.number_of_nodes(t=t)
             g.inter_event_time_distribution()
             g.interactions_per_snapshots()
+            g.temporal_snapshots_ids(), g.avg_number_of_nodes(), list(g.stream_interactions())
             for n in nodes[:3]:
                 g.get_node_snapshots(n), g.neighbors(n), g.inter_event_time_distribution(n)
         elif kind == "stats" and not g.is_directed():
